@@ -67,7 +67,9 @@ func NewStandardHook(theType, hookDir string, upgradeables []string, cfg *config
 }
 
 func (h *Hook) Exists() bool {
-	_, err := os.Stat(h.Path())
+	// Lstat: a symbolic link whose target is missing is still a hook
+	// that somebody put there.
+	_, err := os.Lstat(h.Path())
 
 	return !os.IsNotExist(err)
 }
